@@ -473,7 +473,7 @@ type treeNode struct {
 	obj map[string]interface{}
 	arr []interface{}
 	// how to store a replacement for this node in its parent
-	set func(v interface{})
+	set  func(v interface{})
 	path string
 }
 
